@@ -1234,7 +1234,7 @@ func (fx *FnExec) execChangeType(in *ssa.ChangeType) {
 }
 
 func (fx *FnExec) declBytes() {
-	fx.sc.Declare("sort:BSeq", "(declare-sort BSeq 0)")
+	fx.sc.Declare("sort:BSeq", bseqSortDecl)
 	fx.sc.Declare("uf:bseq", "(declare-fun bseq ((Array Int Int) Int Int) BSeq)")
 	fx.sc.Declare("uf:bseq.len", "(declare-fun bseq.len (BSeq) Int)")
 	fx.sc.Declare("uf:bseq.at", "(declare-fun bseq.at (BSeq Int) Int)")
